@@ -19,6 +19,29 @@ CLAIMED = {
     ),
 }
 
+CLAIMED.update({
+    "C01": dict(
+        category="fault_enumeration",
+        text="For each generated well-formed multipart body (own renderer; CRLF / bare-LF / bare-CR styles; body-less parts; payloads built from line breaks, dashes, "
+        "delimiter prefixes and look-alikes) the real MultipartDecoder is run under arrival schedules chosen by the simulator - every single cut of the body, every pair of "
+        "cuts for small bodies, byte-at-a-time, random and structure-biased k-way cuts - and the real MultiPartParser under every buffer_size 1..len+1 and short reads of its "
+        "input stream; each result is compared with the trivial schedule (whole body) and with the generator's ground truth. The cut sweeps are exhaustive per body, the bodies are sampled.",
+        design_ref="3.1",
+        note="Trusted: the harness's renderer and ground truth. Preamble/epilogue bytes are not compared (as the property says).",
+        technique="deterministic simulation: exhaustive cut-point / buffer-size sweeps per seeded body, differential oracle against the trivial schedule",
+    ),
+    "C02": dict(
+        category="exploration",
+        text="Upload pipeline simulation: a client actor with the ground truth encodes through MultipartEncoder (Data events split by the tape, incl. empty events), "
+        "stream_encode_multipart (files read through short-reading SimFiles, tempfile spill threshold varied) or EnvironBuilder (boundary pinned through the time/random seam so "
+        "near-copies can be planted); bytes travel through cuts / a short-reading SimStream into MultipartDecoder, MultiPartParser or Request.form/files; conservation oracle. "
+        "The urlencoded / query-string clause has no schedule in it and runs as seeded workload only (stated in DESIGN.md 3.2).",
+        design_ref="3.2",
+        note="Trusted: the ground-truth ordering model (MultiDict grouping). Names exclude the characters the property excludes.",
+        technique="deterministic simulation: encoder event-splitting histories x file short reads x transport fragmentation, conservation oracle against ground truth",
+    ),
+})
+
 NOT_APPLICABLE = {
     "C03": "MapAdapter.match is a stateless function of (rule set, configuration, path); no stream, clock, context, fault or object history for a simulator to control.",
     "C04": "Composition of two pure functions (build, match) over converter values; nothing schedule-, time- or fault-dependent.",
